@@ -131,6 +131,8 @@ struct Sys {
     flavour: String,
     /// NFT flavour: token ids per account, from the results of the calls made so far
     toks: BTreeMap<String, Vec<u32>>,
+    /// amounts are logged in the i128-edge regime (`fine_amount`)
+    edge: bool,
 }
 
 /// Runs `$body` with `$cl` bound to the typed client of the flavour's contract (the three clients
@@ -171,7 +173,7 @@ fn num<T, E1, E2>(f: impl FnOnce() -> Result<Result<T, E1>, E2>) -> Option<T> {
 }
 
 impl Sys {
-    fn new(flavour: &str, accts: &[String]) -> Sys {
+    fn new(flavour: &str, accts: &[String], edge: bool) -> Sys {
         let e = new_env(&LedgerCfg { seq: NOW0, ..Default::default() });
         let mut all: Vec<&str> = accts.iter().map(|s| s.as_str()).collect();
         all.push(OWNER);
@@ -183,7 +185,7 @@ impl Sys {
             "nft" => (e.register(nftv::NftVotes, (o,)), Fl::Nft),
             f => panic!("flavour {f}"),
         };
-        Sys { e, names, accts: accts.to_vec(), c, fl, flavour: flavour.to_string(), toks: BTreeMap::new() }
+        Sys { e, names, accts: accts.to_vec(), c, fl, flavour: flavour.to_string(), toks: BTreeMap::new(), edge }
     }
 
     /// NFT flavour: the token a call on behalf of `from` is about.
@@ -207,6 +209,8 @@ impl Sys {
         let e = &self.e;
         no_auth(e);
         let now = seq(e);
+        let edge = self.edge;
+        let jint = |v: i128| if edge { fine_units(v, -999_999) } else { jint(v) };
         let mut bal = JMap::new();
         let mut units = JMap::new();
         let mut deleg = JMap::new();
@@ -289,7 +293,7 @@ impl Sys {
         let now = seq(e);
         let who = auth_addrs(op, &self.names);
         let kind = s(op, "op");
-        let amt = n(op, "amt") as i128;
+        let amt = if self.edge { fine_amount(n(op, "amt")) } else { n(op, "amt") as i128 };
         let lookup = |k: &str| -> Option<Address> {
             let v = s(op, k);
             if v == "none" { None } else { Some(self.names.get(v)) }
@@ -460,7 +464,7 @@ impl Sys {
 
 fn reset_event(sys: &Sys) -> Value {
     json!({"op": {"op": "reset", "from": "none", "to": "none", "by": "none", "amt": 0, "auth": [], "dt": 0,
-                  "flavour": sys.flavour, "accts": sys.accts},
+                  "flavour": sys.flavour, "accts": sys.accts, "edge": sys.edge},
            "now": NOW0, "res": "ok", "err": 0, "tok": -1, "obs": sys.obs()})
 }
 
@@ -508,7 +512,8 @@ fn main() {
                     None => FLAVOURS.iter().filter(|f| applicable(f, &b.ops)).map(|f| f.to_string()).collect(),
                 };
                 for fl in flavours {
-                    let mut sys = Sys::new(&fl, &accts);
+                    let edge = b.cfg.get("edge").and_then(|v| v.as_bool()).unwrap_or(false);
+                    let mut sys = Sys::new(&fl, &accts, edge);
                     t.reset(reset_event(&sys));
                     for op in &b.ops {
                         let ev = sys.step(op);
@@ -532,12 +537,14 @@ fn main() {
                     1 => &[0, 0, 1, 1, 2, 3, 5],
                     _ => &[0, 1, 2, 4, 9, 17, 30],
                 };
-                let mut sys = Sys::new(fl, &accts);
+                // one run in six of the fungible flavours works at the i128 edge
+                let edge = fl != "nft" && (run / 3) % 6 == 5;
+                let mut sys = Sys::new(fl, &accts, edge);
                 t.reset(reset_event(&sys));
                 // state feedback, from the harness's own view of what succeeded
                 let mut bal: BTreeMap<String, i64> = accts.iter().map(|a| (a.clone(), 0)).collect();
                 for i in 0..len {
-                    let dt = *pick(&mut r, dts);
+                    let dt = if r.gen_ratio(1, 25) { 200 } else { *pick(&mut r, dts) };
                     let holders: Vec<String> = bal.iter().filter(|(_, v)| **v > 0).map(|(k, _)| k.clone()).collect();
                     let mut kinds = vec!["mint", "mint", "transfer", "transfer", "transfer", "delegate", "delegate",
                                          "delegate", "approve", "xfer_from", "xfer_from"];
@@ -561,6 +568,8 @@ fn main() {
                             2 => have + 1,
                             3 | 4 => have, // full balance
                             5 => 1,
+                            // at the i128 edge: whole units +- 1, so that the small parts of `fine_amount` stay small
+                            _ if edge => (r.gen_range(0..=(have / FINE).max(0)) * FINE + r.gen_range(-1..=1i64)).max(1),
                             _ => {
                                 if have > 1 { r.gen_range(1..=have) } else { r.gen_range(1..=5) }
                             }
@@ -569,7 +578,14 @@ fn main() {
                     let (from, to, by, amt, needed): (String, String, String, i64, String) = match kind {
                         "mint" => {
                             let to = pick(&mut r, &anames).to_string();
-                            let amt = if fl == "nft" { 1 } else { *pick(&mut r, &[1i64, 1, 2, 3, 5, 10, 100, 0, -1]) };
+                            let amt = if fl == "nft" {
+                                1
+                            } else if edge {
+                                let total: i64 = bal.values().sum();
+                                *pick(&mut r, &[1i64, 10, FINE, 3 * FINE, 7 * FINE, AMAX - 10, AMAX, AMAX - total, AMAX - total + 1, 0, -1])
+                            } else {
+                                *pick(&mut r, &[1i64, 1, 2, 3, 5, 10, 100, 0, -1])
+                            };
                             ("none".into(), to, "none".into(), amt, OWNER.into())
                         }
                         "burn" => {
@@ -591,7 +607,7 @@ fn main() {
                         "approve" => {
                             let f = pick_from(&mut r);
                             let sp = pick(&mut r, &anames).to_string();
-                            let amt = if fl == "nft" { 1 } else { *pick(&mut r, &[1i64, 5, 100, 1000]) };
+                            let amt = if fl == "nft" { 1 } else if edge { *pick(&mut r, &[1i64, FINE, 7 * FINE, AMAX]) } else { *pick(&mut r, &[1i64, 5, 100, 1000]) };
                             (f.clone(), sp, "none".into(), amt, f)
                         }
                         "xfer_from" => {
